@@ -16,6 +16,13 @@ fn fwd(op: &Op, _ctx: &dyn Context, operands: &mut dyn CoordinateSet) -> usize {
         let easting = lon * a;
         let northing = a * (FRAC_PI_4 + lat / 2.0).tan().ln();
 
+        // Beyond the poles, the logarithm of a negative number: The point has no
+        // image (while a NaN coordinate just propagates, as everywhere else)
+        if (easting.is_nan() || northing.is_nan()) && !(lon.is_nan() || lat.is_nan()) {
+            operands.set_xy(i, f64::NAN, f64::NAN);
+            continue;
+        }
+
         operands.set_xy(i, easting, northing);
         successes += 1;
     }
